@@ -504,10 +504,56 @@ fn exhaustive_small(rng: &mut Rng, em: &mut Emitter, max_recs: usize, with_srv_e
 
 // ------------------------------------------------------------------------------------------
 
+/// The documented corner of C04 T3 (DESIGN.md §6 C04), built on purpose: a CNAME chain of nine links
+/// (one more than MAX_CNAME_CHAIN_LEN) or a loop, with names of ≈190 octets. Over UDP the 512-octet
+/// limit is exceeded after two links, long before the chain is found too long: TC. Over TCP the
+/// chain is followed to the end: SERVFAIL. Both responses carry no records.
+pub fn gen_corner(rng: &mut Rng, em: &mut Emitter) {
+    for looping in [false, true] {
+        for size in [190usize, 120, 250] {
+            let apex = below(&[b"lim"], &[0]);
+            let mut zb = ZB::new(apex.clone(), 1);
+            let rd = soa_rdata(&zb, 60);
+            zb.push(rng, &apex, 6, rd);
+            let len = if looping { 5 } else { 9 };
+            let names: Vec<Vec<u8>> = (0..=len).map(|i| long_name(rng, format!("l{}", i).as_bytes(), size, &apex)).collect();
+            for i in 0..len { zb.push(rng, &names[i], 5, names[i + 1].clone()); }
+            if looping { zb.push(rng, &names[len], 5, names[2].clone()); } else { zb.push(rng, &names[len], 1, vec![192, 0, 2, 1]); }
+            let recs = zb.recs.clone();
+            let zs = vec![ZoneCfg { kind: 'L', apex, class: 1, glue_wide: false, recs }];
+            let Some(server) = make_server(&zs, 1232) else { continue };
+            let cat = enc_catalog(&zs);
+            let req = query(rng, &names[0], 1, 1, None);
+            emit(em, &server, 1232, &cat, &req, true);
+        }
+    }
+}
+
+/// The witness of defect D04 (repaired by 4422821): SOA record TTL 60, MINIMUM 3600 — the negative
+/// answer must carry the SOA with TTL 60. Also MINIMUM < TTL, MINIMUM ≥ 2^31, and the NOERROR/no-data form.
+pub fn gen_d04(rng: &mut Rng, em: &mut Emitter) {
+    for (ttl, min) in [(60u32, 3600u32), (3600, 60), (300, 0x8000_0000), (0, 5), (7, 7)] {
+        let apex = below(&[b"ex"], &[0]);
+        let mut soa = below(&[b"ns"], &apex); soa.extend(below(&[b"hostmaster"], &apex));
+        for x in [1u32, 7200, 3600, 86400, min] { soa.extend_from_slice(&x.to_be_bytes()); }
+        let recs = vec![Rec { owner: apex.clone(), ty: 6, ttl, rdata: soa },
+                        Rec { owner: below(&[b"www"], &apex), ty: 1, ttl: 30, rdata: vec![192, 0, 2, 1] }];
+        let zs = vec![ZoneCfg { kind: 'L', apex: apex.clone(), class: 1, glue_wide: false, recs }];
+        let Some(server) = make_server(&zs, 1232) else { continue };
+        let cat = enc_catalog(&zs);
+        for (q, ty) in [(below(&[b"nx"], &apex), 1u16), (below(&[b"www"], &apex), 16), (below(&[b"nx"], &apex), 255)] {
+            let req = query(rng, &q, ty, 1, None);
+            emit(em, &server, 1232, &cat, &req, true);
+        }
+    }
+}
+
 pub fn gen(rng: &mut Rng, thorough: bool, em: &mut Emitter) {
+    gen_d04(rng, em);
+    gen_corner(rng, em);
     // scenario zones, alone or nested in a catalog
-    let n_zone = if thorough { 4000 } else { 260 };
-    let per = if thorough { 60 } else { 36 };
+    let n_zone = if thorough { 4000 } else { 120 };
+    let per = if thorough { 60 } else { 30 };
     let apexes: [Vec<u8>; 5] = [below(&[b"ex"], &[0]), below(&[b"Example", b"ORG"], &[0]), vec![0], below(&[b"b", b"a"], &[0]), below(&[b"x", b"y", b"z", b"w"], &[0])];
     for i in 0..n_zone {
         let apex = rng.pick(&apexes).clone();
@@ -527,11 +573,11 @@ pub fn gen(rng: &mut Rng, thorough: bool, em: &mut Emitter) {
         let tys = types_in(&zs);
         for _ in 0..per {
             let req = ask(rng, &zs, &around, &tys);
-            emit(em, &server, payload, &cat, &req, true);
+            emit(em, &server, payload, &cat, &req, thorough || rng.chance(1, 2));
         }
     }
     // catalogs and queries of group `server` (random zones over a small label alphabet)
-    let n_cat = if thorough { 1500 } else { 120 };
+    let n_cat = if thorough { 1500 } else { 100 };
     for _ in 0..n_cat {
         let zs = g_server::gen_catalog(rng);
         let payload = *rng.pick(&[512u16, 1232, 4096]);
@@ -543,7 +589,7 @@ pub fn gen(rng: &mut Rng, thorough: bool, em: &mut Emitter) {
         }
     }
     // the size limits (C04)
-    let n_big = if thorough { 1500 } else { 110 };
+    let n_big = if thorough { 1500 } else { 60 };
     for i in 0..n_big {
         let (zs, names) = if i % 3 == 0 { (vec![g_server::gen_big_zone(rng)], vec![]) } else { let (z, n) = limit_zone(rng); (vec![z], n) };
         let payload = *rng.pick(&[512u16, 513, 700, 1232, 4096, 65535]);
